@@ -138,6 +138,10 @@ type Enc struct {
 	monOwnerV  *Val
 	sharedSet  map[string]bool
 	roArrays   []roArray
+	genMerge   map[string][]edge
+	shadowParams map[string]bool
+	frameRecv  *Val
+	frameRecvT types.Type
 }
 
 type lvalue struct {
@@ -158,7 +162,7 @@ func NewEnc(w *World, fn *ssa.Function, key string, spec *FuncSpec) *Enc {
 		cellName: map[string][]*ssa.Alloc{}, regs: map[ssa.Value]Val{}, addrs: map[ssa.Value]lvalue{}, used: map[string]bool{},
 		usedTrusted: map[string]bool{}, loops: map[*ssa.BasicBlock]*loopInfo{}, inEdges: map[*ssa.BasicBlock][]edge{},
 		counters: map[string]int{}, iterStr: map[ssa.Value]Val{}, closures: map[ssa.Value]*ssa.MakeClosure{},
-		tupleOf: map[ssa.Value][]Val{}, callOrd: map[string]int{}, freeVars: map[*ssa.FreeVar]lvalue{}, paramVals: map[string]Val{}, usedLemmas: map[string]bool{}, implUsed: map[string]types.Type{}, iterMap: map[ssa.Value]Val{}, closureOf: map[string]*ssa.MakeClosure{}, lateBlocks: map[*ssa.BasicBlock]bool{}, ghostUsed: map[int]bool{}, dynType: map[string]types.Type{}, fieldPtrs: map[string]lvalue{}, monRel: map[string]*State{}, monAcq: map[string]*State{}, unlockSeen: map[string]int{}}
+		tupleOf: map[ssa.Value][]Val{}, callOrd: map[string]int{}, freeVars: map[*ssa.FreeVar]lvalue{}, paramVals: map[string]Val{}, usedLemmas: map[string]bool{}, implUsed: map[string]types.Type{}, iterMap: map[ssa.Value]Val{}, closureOf: map[string]*ssa.MakeClosure{}, lateBlocks: map[*ssa.BasicBlock]bool{}, ghostUsed: map[int]bool{}, dynType: map[string]types.Type{}, fieldPtrs: map[string]lvalue{}, monRel: map[string]*State{}, monAcq: map[string]*State{}, unlockSeen: map[string]int{}, genMerge: map[string][]edge{}, shadowParams: map[string]bool{}}
 }
 
 func (e *Enc) freshName(prefix string) string {
@@ -284,6 +288,9 @@ func (e *Enc) lookupLocal(c *Ctx, name string) (Val, bool) {
 	if name == "_pos" {
 		return Val{}, false
 	}
+	if e.shadowParams[name] {
+		return e.paramVals[name], true
+	}
 	as := e.cellName[name]
 	if i := strings.Index(name, "__"); i > 0 {
 		// name__N: the N-th local of that name in source order
@@ -376,6 +383,13 @@ func (e *Enc) heapKey(st *State, key, sort string) string {
 	if _, ok := e.sorts["decl:"+name]; !ok {
 		e.sorts["decl:"+name] = sort
 		e.decl(name, sort)
+		if in, isMerge := e.genMerge[gen]; isMerge {
+			// a heap location first used after a join of paths with different heap generations:
+			// its value is that of whichever path was taken
+			for _, ed := range in {
+				e.def(imp(ed.guard, eq(name, e.heapKey(ed.st, key, sort))))
+			}
+		}
 	}
 	st.m[key] = name
 	return name
@@ -842,6 +856,14 @@ func (e *Enc) loopWrites(li *loopInfo) (cells map[*ssa.Alloc]bool, heapAll bool,
 						spec = e.W.Specs.Funcs[pkg+n.Obj().Name()+"."+cc.Method.Name()]
 					}
 				}
+				if spec == nil && !cc.IsInvoke() && cc.StaticCallee() == nil && e.spec != nil {
+					// call of a function value: its callback contract
+					if cb := e.spec.Callbacks[calleeDesignator(cc.Value)]; cb != "" {
+						spec = e.W.Specs.Funcs["callback."+cb]
+					} else if n, ok := cc.Value.Type().(*types.Named); ok {
+						spec = e.W.Specs.Funcs["callback."+n.Obj().Name()]
+					}
+				}
 				if spec == nil || spec.Holds != "" {
 					heapAll = true
 					break
@@ -986,6 +1008,33 @@ func (e *Enc) Encode() {
 			e.paramVals[names[i]] = v
 		}
 		e.paramVals[p.Name()] = v
+		// the contract header's receiver/parameter kind is part of the specification
+		if e.spec != nil && i < len(e.spec.Params) {
+			declPtr := strings.HasPrefix(strings.TrimSpace(e.spec.Params[i].Type), "*")
+			_, codePtr := p.Type().Underlying().(*types.Pointer)
+			_, codeStruct := p.Type().Underlying().(*types.Struct)
+			switch {
+			case declPtr && codeStruct:
+				// contract speaks about the caller's object, the code works on a copy: the caller's
+				// object is a ghost object equal to the copy at entry; the contract is read against it
+				r := e.fresh("callerobj."+p.Name(), SInt)
+				e.assume("true", and(app("<", "0", r), app("<", r, e.heapKey(st, "alloc", SInt))))
+				e.assume("true", valEq(e.loadPtr(st, p.Type(), r), v))
+				pv := Val{types.NewPointer(p.Type()), []string{r}}
+				e.paramVals[names[i]] = pv
+				e.paramVals[p.Name()] = pv
+				e.shadowParams[p.Name()] = true
+			case !declPtr && codePtr && e.spec.Params[i].Type != "" && !strings.Contains(e.spec.Params[i].Type, "interface"):
+				if pt, ok := p.Type().Underlying().(*types.Pointer); ok {
+					if _, isSt := pt.Elem().Underlying().(*types.Struct); isSt && i == 0 && e.spec.RecvName != "" {
+						// contract declares copy semantics, the code has a pointer receiver: the method must
+						// leave the caller's object unchanged
+						e.frameRecv = &v
+						e.frameRecvT = pt.Elem()
+					}
+				}
+			}
+		}
 	}
 	for _, fv := range fn.FreeVars {
 		// free variables are pointers to captured cells: model as pointer-typed refs
@@ -1128,7 +1177,8 @@ func (e *Enc) merge(label string, in []edge) (string, *State) {
 	for _, ed := range in {
 		if ed.st.m["gen"] != gen0 {
 			e.n++
-			gen0 = fmt.Sprintf("%d", e.n)
+			gen0 = fmt.Sprintf("m%d", e.n)
+			e.genMerge[gen0] = in
 			break
 		}
 	}
@@ -1391,6 +1441,11 @@ func (e *Enc) finish() {
 			xb.assertG("exit.lockstate", "mon", eq(xb.held(), want), "lock state at return differs from the contract (holds)", e.fn.Blocks[0].Instrs[0])
 		}
 		xb.ghostAt("exit", e.fn.Blocks[0].Instrs[0], nil)
+		if e.frameRecv != nil {
+			now := e.loadPtr(st, e.frameRecvT, e.frameRecv.C[0])
+			was := e.loadPtr(e.entrySt, e.frameRecvT, e.frameRecv.C[0])
+			xb.assertG("post.receiver-is-a-copy", "post", valEq(now, was), "the contract declares a value receiver: the caller's object must be unchanged", e.fn.Blocks[0].Instrs[0])
+		}
 		if e.spec != nil && e.spec.Holds != "" {
 			xb.monSegment("exit", e.fn.Blocks[0].Instrs[0])
 		}
